@@ -1,3 +1,4 @@
 import Cgm.Lemmas.AuditCmd
 import Cgm.E2E.C03
+import Cgm.E2E.C03h
 #audit_namespace Cg.E2E.C03
